@@ -57,6 +57,7 @@ def call(I, name, args, e):
         _, ga = split_generics(ty)
         return SeqV(ga[0] if ga else 'u8', [])
     if n == 'alloc::vec::Vec::<T, A>::push':
+        I.log.append(('mutate', n, e.get('sp')))
         s = a0; v = args[1]
         if not isinstance(s, SeqV): return I.top('push on %r' % (s,), e)
         if s.is_bytes():
@@ -66,6 +67,7 @@ def call(I, name, args, e):
             s.segs.append(('elem', v))
         return UNIT
     if n == 'alloc::vec::Vec::<T, A>::extend_from_slice':
+        I.log.append(('mutate', n, e.get('sp')))
         s = a0; src = deref(args[1])
         if isinstance(src, SliceV):
             r = I.slice_segs(src)
@@ -75,6 +77,7 @@ def call(I, name, args, e):
         if src.stores: return I.top('extend_from_slice from a stored-to source', e)   # stores into the destination address earlier positions only
         s.segs.extend(src.segs); return UNIT
     if n == 'alloc::vec::Vec::<T, A>::append':
+        I.log.append(('mutate', n, e.get('sp')))
         s = a0; src = deref(args[1])
         if not isinstance(s, SeqV) or not isinstance(src, SeqV) or src.stores or s.stores: return I.top('append', e)
         s.segs.extend(src.segs); src.segs = []; return UNIT
@@ -92,6 +95,7 @@ def call(I, name, args, e):
     if n == '<alloc::vec::Vec<T, A> as core::clone::Clone>::clone':
         return fcopy(a0)
     if n == 'alloc::vec::Vec::<T, A>::resize':
+        I.log.append(('mutate', n, e.get('sp')))
         s = a0; newlen = args[1]; v = args[2]
         cur = seqlen(s.segs)
         d = sub(newlen, cur)
@@ -129,6 +133,7 @@ def call(I, name, args, e):
             if is_term(idx): return RefV(IndexPlace(I, s, idx))
         return I.top('index of %r by %r' % (s, idx), e)
     if n == 'core::slice::<impl [T]>::copy_from_slice':
+        I.log.append(('mutate', n, e.get('sp')))
         dst = a0; src = deref(args[1])
         if isinstance(dst, SeqV) and isinstance(src, SeqV):
             # whole-sequence overwrite (lengths must agree: copy_from_slice panics otherwise)
@@ -142,6 +147,7 @@ def call(I, name, args, e):
             return UNIT
         return I.top('copy_from_slice %r <- %r' % (dst, src), e)
     if n == 'core::slice::<impl [T]>::copy_within':
+        I.log.append(('mutate', n, e.get('sp')))
         s = a0; r = args[1]; dest = args[2]
         if isinstance(s, SeqV) and isinstance(r, RangeV):
             s.stores.append((('within', r.lo, r.hi, dest), None))
